@@ -84,11 +84,11 @@ def checkPositive (x : LinComb) (bits : Option Nat := none) : M LinComb := do
   addConstraint (ret.mulI 2) x ((x.addFB (fromBits bs)).add (ret.rsubI 1))
   pure ret
 
-/-- `assert_positive(bits)`: NB the circuit part calls `self.to_bits()` without the width -/
+/-- `assert_positive(bits)` -/
 def assertPositive (x : LinComb) (bits : Option Nat := none) : M Unit := fun s =>
   let n := bits.getD s.bitlength
   if !s.ignoreErrors && !fitsNonneg x.value n then .error .assertion
-  else (do let _ ← toBits x none; pure ()) s
+  else (do let _ ← toBits x bits; pure ()) s
 
 /-- `check_zero` -/
 def checkZero (x : LinComb) : M LinComb := do
@@ -162,7 +162,7 @@ def assertGe (a b : LinComb) : M Unit := fun s =>
 /-- `assert_range(lo, hi)` (bounds already `_ensurelc`'d) -/
 def assertRange (x lo hi : LinComb) : M Unit := fun s =>
   if !s.ignoreErrors && (x.value < lo.value || x.value ≥ hi.value) then .error .assertion
-  else (do assertPositive (x.sub lo) none; assertPositive (hi.sub x) none) s
+  else (do assertPositive (x.sub lo) none; assertPositive ((hi.sub x).subI 1) none) s
 
 /-- `val()`: `(self - PubVal(self.value)).assert_zero(); return self.value` -/
 def valL (x : LinComb) : M Int := do
